@@ -244,6 +244,8 @@ def run(ctx):
     ctx.exhaustive = True
     ctx.evaluations = CYCLE * (info.get("pairs", 0) + len(trx["lookups"]) + 3 * len(trx["layouts"]))
     ctx.nontrivial_n = ncalls + nrows
+    # records of the real code judged by TLC: one call record per task, one per lookup, one per C walk
+    ctx.traces_validated = len(fw["tasks"]) + len(trx["lookups"]) + len(trx["walk"])
     ctx.extra.update(correspondence_links=info.get("links"), correspondence_pairs=info.get("pairs"),
                      firmware_calls=ncalls, layout_rows=nrows, c_walks=len(trx["walk"]))
     ctx.sample(dict(task=fw["tasks"][4]["task"], first_calls=fw["tasks"][4]["calls"][:4]))
